@@ -97,6 +97,52 @@ theorem compatible_is_freq_one (e : TEvent) :
     renderEvent true e = renderEvent false e ++ TAB :: ['1'] := by
   simp [renderEvent]
 
+/-- one body line of the writer with the delimiter given as TAB is the line of
+    the default writer -/
+theorem renderEventWith_tab (compatible : Bool) (e : TEvent) :
+    renderEventWith [TAB] compatible e = renderEvent compatible e := by
+  cases compatible <;> simp [renderEventWith, renderEvent]
+
+/-- **`delimiter=` / `columns=` at their defaults.** The writer model with both
+    parameters (`renderFileWith`, what the differential run evaluates when a
+    case passes them) is the default writer `renderFile` of the round-trip
+    theorems when they are `"\t"` and `("cues", "outcomes")` — for both
+    `compatible` settings (with `compatible=True` the columns are replaced). -/
+theorem renderFileWith_default (compatible : Bool) (es : List TEvent) :
+    renderFileWith [TAB] defaultColumns compatible es = renderFile compatible es := by
+  have hh : renderHeaderWith [TAB] defaultColumns compatible = renderHeader compatible := by
+    cases compatible <;> decide +kernel
+  have he : renderEventWith [TAB] compatible = renderEvent compatible :=
+    funext (renderEventWith_tab compatible)
+  simp [renderFileWith, renderFile, renderLines, hh, he]
+
+/-- **The legacy triple given explicitly with `compatible=True`** (io.py:106,
+    the branch without the warning) writes the same file as `compatible=True`
+    alone. -/
+theorem renderFileWith_legacy_explicit (es : List TEvent) :
+    renderFileWith [TAB] legacyColumns true es = renderFile true es := by
+  have hh : renderHeaderWith [TAB] legacyColumns true = renderHeader true := by decide +kernel
+  have he : renderEventWith [TAB] true = renderEvent true := funext (renderEventWith_tab true)
+  simp [renderFileWith, renderFile, renderLines, hh, he]
+
+/-- with `compatible=True` the `columns=` argument never reaches the file -/
+theorem renderFileWith_compatible_ignores_columns (delim : Str) (columns : List Str) (es : List TEvent) :
+    renderFileWith delim columns true es = renderFileWith delim legacyColumns true es := by
+  by_cases h : columns = legacyColumns <;> simp [renderFileWith, renderHeaderWith, h]
+
+/-- **`columns=` only names the header, and the header never reaches the
+    reader**: two files that differ in `columns=` only (column names free of
+    line breaks, any delimiter, any events) are read back identically — same
+    events or same `ValueError`, for every `start`/`step`. -/
+theorem columns_irrelevant_for_reader (delim : Str) (c1 c2 : List Str) (compatible : Bool)
+    (start step : Nat) (es : List TEvent)
+    (h1 : LF ∉ renderHeaderWith delim c1 compatible ∧ CR ∉ renderHeaderWith delim c1 compatible)
+    (h2 : LF ∉ renderHeaderWith delim c2 compatible ∧ CR ∉ renderHeaderWith delim c2 compatible) :
+    parseFile start step (renderFileWith delim c1 compatible es)
+      = parseFile start step (renderFileWith delim c2 compatible es) := by
+  unfold parseFile renderFileWith
+  rw [Text.bodyLines_unlines_cons _ _ h1, Text.bodyLines_unlines_cons _ _ h2]
+
 /-- **Input forms.** Whatever a learner computes from the event list
     (`learn`), it computes the same from the file the events were written to
     (path string / path object: the reader; generator given to `ndl.ndl`: spooled
@@ -122,6 +168,18 @@ example :
     parseFile 1 2 (renderFile false [e1, e2, e1]) = some [⟨[['c']], [[]]⟩] ∧
     parseLine (renderEvent false e2 ++ TAB :: ['3'] ++ [LF]) = some (List.replicate 3 (normalise e2)) ∧
     parseNat? ['3'] = some 3 := by
+  decide +kernel
+
+/-! Non-vacuity of the `delimiter=` / `columns=` statements: a reordered pair of
+column names and a comma delimiter give a different file; with the comma the
+written file cannot be read back (`ValueError`), with TAB it can. -/
+example :
+    let e1 : TEvent := ⟨[['a'], ['b']], [['x']]⟩
+    let oc : List Str := [['o', 'u', 't'], ['c', 'u', 'e']]
+    renderFileWith [TAB] oc false [e1] ≠ renderFile false [e1] ∧
+    parseFile 0 1 (renderFileWith [TAB] oc false [e1]) = some [e1] ∧
+    parseFile 0 1 (renderFileWith [','] defaultColumns false [e1]) = none ∧
+    (LF ∉ renderHeaderWith [TAB] oc false ∧ CR ∉ renderHeaderWith [TAB] oc false) := by
   decide +kernel
 
 example : WfEvent ⟨[['a', 'ä'], ['b', ' ']], []⟩ := by
